@@ -432,10 +432,44 @@ static int c_rtx_call (struct api_ctx* a)
 	return 0;
 }
 
+/* ---- path name expansion, wide and byte variant (three private buffers each: found by the unwind table of hawk_gem_uglob) */
+#include <hawk-glob.h>
+static int glob_count_u (const hawk_ucs_t* path, void* ctx) { (*(int*)ctx)++; return 0; }
+static int glob_count_b (const hawk_bcs_t* path, void* ctx) { (*(int*)ctx)++; return 0; }
+static int c_glob (struct api_ctx* a)
+{
+	static const hawk_uch_t upat[] = { '/','e','t','c','/','h','o','s','t','*',0 };
+	static const hawk_uch_t unone[] = { '/','n','o','n','e','x','i','s','t','e','n','t','-','*',0 };
+	int nu = 0, nb = 0, nn = 0;
+	if (hawk_gem_uglob(a->gem, upat, glob_count_u, &nu, 0) <= -1) GFAIL(a);
+	if (hawk_gem_bglob(a->gem, "/etc/host*", glob_count_b, &nb, 0) <= -1) GFAIL(a);
+	if (nu != nb || nu < 1) BROKEN("uglob found %d names, bglob %d", nu, nb);
+	if (hawk_gem_uglob(a->gem, unone, glob_count_u, &nn, 0) <= -1) GFAIL(a);
+	if (nn != 0) BROKEN("uglob found a name for a pattern that matches nothing");
+	{
+		/* two wild segments: the emulated recursion keeps a stack and a free list of frames */
+		static const hawk_uch_t upat2[] = { '/','e','t','c','/','*','.','d','/','*','.','c','o','n','f',0 };
+		static int expect = -1;
+		int n2u = 0, n2b = 0;
+		if (expect < 0)
+		{
+			/* the unconstrained answer, taken once with the system allocator out of the picture (refusals only count in a->gem) */
+			hawk_gem_t g0 = *a->gem; g0.mmgr = hawk_get_sys_mmgr();
+			int e = 0;
+			if (hawk_gem_bglob(&g0, "/etc/*.d/*.conf", glob_count_b, &e, 0) <= -1) e = -2;
+			expect = e;
+		}
+		if (hawk_gem_uglob(a->gem, upat2, glob_count_u, &n2u, 0) <= -1) GFAIL(a);
+		if (hawk_gem_bglob(a->gem, "/etc/*.d/*.conf", glob_count_b, &n2b, 0) <= -1) GFAIL(a);
+		if (expect >= 0 && (n2u != expect || n2b != expect)) BROKEN("two-level pattern: uglob %d names, bglob %d, unconstrained %d", n2u, n2b, expect);
+	}
+	return 0;
+}
+
 struct api_case_t { const char* name; int (*fn)(struct api_ctx*); int need_rtx; };
 static struct api_case_t api_cases[] =
 {
 	{ "gem_dup", c_gem_dup, 0 }, { "gem_conv", c_gem_conv, 0 }, { "gem_fmt_rex", c_gem_fmt_rex, 0 },
-	{ "becs", c_becs, 0 }, { "uecs", c_uecs, 0 }, { "htb", c_htb, 0 }, { "rbt", c_rbt, 0 }, { "arr", c_arr, 0 }, { "custom_copiers", c_custom_copiers, 0 },
+	{ "becs", c_becs, 0 }, { "uecs", c_uecs, 0 }, { "htb", c_htb, 0 }, { "rbt", c_rbt, 0 }, { "arr", c_arr, 0 }, { "custom_copiers", c_custom_copiers, 0 }, { "glob", c_glob, 0 },
 	{ "val_make", c_val_make, 1 }, { "val_conv", c_val_conv, 1 }, { "rtx_call", c_rtx_call, 1 }
 };
